@@ -166,6 +166,41 @@ type primRun struct {
 }
 
 func (p *primRun) emit(method string, dst []byte, call string, tb *tables, got []byte, want *cborref.Item) {
+	p.emitC(method, dst, call, tb, got, want, "")
+}
+
+// Go twins of the patterns of Harness/C09H.v
+func patBytes(n int) []byte {
+	b := make([]byte, n)
+	for i := range b {
+		b[i] = byte(97 + i%26)
+	}
+	return b
+}
+func isPat(b []byte) bool {
+	for i, x := range b {
+		if x != byte(97+i%26) {
+			return false
+		}
+	}
+	return true
+}
+
+// cbsTail prints got as literal-head ++ pat n when it ends with the n-byte pattern
+func cbsTail(got []byte, n int) string {
+	if n > 512 && len(got) >= n && isPat(got[len(got)-n:]) {
+		return fmt.Sprintf("(%s ++ pat %s)", cbs(got[:len(got)-n]), cn(uint64(n)))
+	}
+	return cbs(got)
+}
+func cbsPat(b []byte) string {
+	if len(b) > 512 && isPat(b) {
+		return fmt.Sprintf("(pat %s)", cn(uint64(len(b))))
+	}
+	return cbs(b)
+}
+
+func (p *primRun) emitC(method string, dst []byte, call string, tb *tables, got []byte, want *cborref.Item, gotCoq string) {
 	c := p.c
 	p.count[method]++
 	in := map[string]interface{}{"method": method, "dst": fmt.Sprintf("%x", dst), "call": trunc(call, 300)}
@@ -188,7 +223,10 @@ func (p *primRun) emit(method string, dst []byte, call string, tb *tables, got [
 	if tb == nil {
 		tb = newTables()
 	}
-	term := fmt.Sprintf("((%s, (%s, %s)), %s)", tb.coq(), cbs(dst), call, cbs(got))
+	if gotCoq == "" {
+		gotCoq = cbs(got)
+	}
+	term := fmt.Sprintf("((%s, (%s, %s)), %s)", tb.coq(), cbs(dst), call, gotCoq)
 	c.AddCase(term, map[string]interface{}{"method": method, "dst": fmt.Sprintf("%x", dst), "call": trunc(call, 2000), "got": fmt.Sprintf("%x", truncB(got, 4096))})
 	c.Count(method+"|"+trunc(call, 4000)+"|"+fmt.Sprint(len(dst)), len(got) > len(dst)+1)
 	c.Hist("primitive", method)
@@ -338,20 +376,23 @@ func runPrimitives(c *Ctx) {
 		}
 		s := fillBytes(r, n, mode)
 		d := nextDst()
-		p.emit("AppendString", d, "KString "+cbs(s), nil, e.AppendString(append([]byte{}, d...), string(s)), cborref.Tx(string(s)))
+		em := func(method, ctor string, got []byte, want *cborref.Item) {
+			p.emitC(method, d, ctor+" "+cbsPat(s), nil, got, want, cbsTail(got, len(s)))
+		}
+		em("AppendString", "KString", e.AppendString(append([]byte{}, d...), string(s)), cborref.Tx(string(s)))
 		d = nextDst()
-		p.emit("AppendBytes", d, "KBytes "+cbs(s), nil, e.AppendBytes(append([]byte{}, d...), s), cborref.Bs(s))
+		em("AppendBytes", "KBytes", e.AppendBytes(append([]byte{}, d...), s), cborref.Bs(s))
 		if n > 1000 && n != 65536 {
 			continue
 		}
 		d = nextDst()
-		p.emit("AppendHex", d, "KHex "+cbs(s), nil, e.AppendHex(append([]byte{}, d...), s), cborref.Tg(263, cborref.Bs(s)))
+		em("AppendHex", "KHex", e.AppendHex(append([]byte{}, d...), s), cborref.Tg(263, cborref.Bs(s)))
 		d = nextDst()
-		p.emit("AppendEmbeddedJSON", d, "KJSON "+cbs(s), nil, zerolog.VerifCborEmbeddedJSON(append([]byte{}, d...), s), cborref.Tg(262, cborref.Bs(s)))
+		em("AppendEmbeddedJSON", "KJSON", zerolog.VerifCborEmbeddedJSON(append([]byte{}, d...), s), cborref.Tg(262, cborref.Bs(s)))
 		d = nextDst()
-		p.emit("AppendEmbeddedCBOR", d, "KCBOR "+cbs(s), nil, zerolog.VerifCborEmbeddedCBOR(append([]byte{}, d...), s), cborref.Tg(63, cborref.Bs(s)))
+		em("AppendEmbeddedCBOR", "KCBOR", zerolog.VerifCborEmbeddedCBOR(append([]byte{}, d...), s), cborref.Tg(63, cborref.Bs(s)))
 		d = nextDst()
-		p.emit("AppendKey", d, "KKey "+cbs(s), nil, e.AppendKey(append([]byte{}, d...), string(s)), func() *cborref.Item {
+		em("AppendKey", "KKey", e.AppendKey(append([]byte{}, d...), string(s)), func() *cborref.Item {
 			if len(d) == 0 {
 				return nil // begin marker + key: not one item
 			}
@@ -380,8 +421,10 @@ func runPrimitives(c *Ctx) {
 		for i := range vals {
 			if n < 1000 {
 				bss[i] = fillBytes(r, r.Intn(30), 2)
+			} else if i%2 == 1 {
+				bss[i] = []byte("a")
 			} else {
-				bss[i] = fillBytes(r, i%2, 0)
+				bss[i] = []byte{}
 			}
 			vals[i] = string(bss[i])
 		}
@@ -390,7 +433,25 @@ func runPrimitives(c *Ctx) {
 		for i := range xs {
 			xs[i] = cborref.Tx(vals[i])
 		}
-		p.emit("AppendStrings", d, "KStrings "+cbss(bss), nil, e.AppendStrings(append([]byte{}, d...), vals), cborref.Arr(xs...))
+		got := e.AppendStrings(append([]byte{}, d...), vals)
+		if n < 1000 {
+			p.emit("AppendStrings", d, "KStrings "+cbss(bss), nil, got, cborref.Arr(xs...))
+		} else {
+			// compact form: the elements are "" / "a" alternating; check the tail here, print the pattern
+			var tail []byte
+			for i := 0; i < n; i++ {
+				if i%2 == 0 {
+					tail = append(tail, 0x60)
+				} else {
+					tail = append(tail, 0x61, 0x61)
+				}
+			}
+			gotCoq := cbs(got)
+			if len(got) >= len(tail) && string(got[len(got)-len(tail):]) == string(tail) {
+				gotCoq = fmt.Sprintf("(%s ++ pats_out %s)", cbs(got[:len(got)-len(tail)]), cn(uint64(n)))
+			}
+			p.emitC("AppendStrings", d, "KStrings (pats "+cn(uint64(n))+")", nil, got, cborref.Arr(xs...), gotCoq)
+		}
 		if n <= 300 {
 			sv := make([]fmt.Stringer, n)
 			os := make([]string, n)
@@ -449,15 +510,36 @@ func runPrimitives(c *Ctx) {
 	for _, n := range append(append([]int{}, sliceLens...), 65535, 65536) {
 		vals := make([]bool, n)
 		for i := range vals {
-			vals[i] = r.Bool()
+			if n < 1000 {
+				vals[i] = r.Bool()
+			} else {
+				vals[i] = i%3 == 0
+			}
 		}
 		d := nextDst()
-		p.emit("AppendBools", d, "KBools "+CoqBools(vals), nil, e.AppendBools(append([]byte{}, d...), vals), wantSlice(n, func(i int) *cborref.Item {
+		want := wantSlice(n, func(i int) *cborref.Item {
 			if vals[i] {
 				return cborref.Sv(21)
 			}
 			return cborref.Sv(20)
-		}))
+		})
+		got := e.AppendBools(append([]byte{}, d...), vals)
+		if n < 1000 {
+			p.emit("AppendBools", d, "KBools "+CoqBools(vals), nil, got, want)
+		} else {
+			tail := make([]byte, n)
+			for i := range tail {
+				tail[i] = 0xf4
+				if i%3 == 0 {
+					tail[i] = 0xf5
+				}
+			}
+			gotCoq := cbs(got)
+			if len(got) >= n && string(got[len(got)-n:]) == string(tail) {
+				gotCoq = fmt.Sprintf("(%s ++ patb_out %s)", cbs(got[:len(got)-n]), cn(uint64(n)))
+			}
+			p.emitC("AppendBools", d, "KBools (patb "+cn(uint64(n))+")", nil, got, want, gotCoq)
+		}
 	}
 
 	// ---- signed integers, every width
@@ -784,7 +866,7 @@ func runPrimitives(c *Ctx) {
 func runC09(c *Ctx) {
 	c.Res.Rule = "part A: every cbor.Encoder method (+appendCborTypePrefix, AppendEmbeddedJSON/CBOR) on boundary values: lengths 0,1,22..25,254..257,65535,65536, integers around every width boundary of int8..int64/uint8..uint64 and of the 1/2/4/8-byte argument, float specials (zeros, infinities, quiet/signalling/negative NaNs, subnormals, extremes) and random bit patterns, times with zero and non-zero nanoseconds from year 1 to 2^61 s, durations with every unit incl. negative, three dst buffers; part B (binary_log): seeded random programs over Event/Context/Array/Dict/Object/Fields with every field method, nesting <= 3, context splice; non-trivial = the call appended more than one byte / the event has a field besides level; distinct by call text"
 	c.OpenShards("From Verif Require Import Base.Prelude Base.CborSpec Enc.CborEnc Harness.C09H.\nOpen Scope N_scope.",
-		"(tables * (list N * call)) * list N", "mismatches c09_run c09_eqb", 250)
+		"(tables * (list N * call)) * list N", "mismatches c09_run c09_eqb", 120)
 	runPrimitives(c)
 	if !zerolog.VerifEncIsCBOR() {
 		c.Note("package zerolog was built without -tags binary_log: enc is the JSON encoder, the whole-event part of C09 was skipped")
@@ -792,6 +874,6 @@ func runC09(c *Ctx) {
 		return
 	}
 	c.OpenShards("From Verif Require Import Base.Prelude Base.CborSpec Enc.CborEnc Harness.C09H.\nOpen Scope N_scope.",
-		"(tables * (list (list N * cval) * list (list N * cval) * list (list N * cval))) * list N", "mismatches c09_run_event c09_eqb", 150)
+		"(tables * (list (list N * cval) * list (list N * cval) * list (list N * cval))) * list N", "mismatches c09_run_event c09_eqb", 60)
 	runEvents(c)
 }
